@@ -511,6 +511,7 @@ class HostConnection(object):
                 return
 
         log.debug("Replacing connection (%s) to %s", id(connection), self.host)
+        conn = None
         try:
             conn = self._session.cluster.connection_factory(self.host.endpoint, on_orphaned_stream_released=self.on_orphaned_stream_released)
             if self._keyspace:
@@ -518,6 +519,8 @@ class HostConnection(object):
             self._connection = conn
         except Exception:
             log.warning("Failed reconnecting %s. Retrying." % (self.host.endpoint,))
+            if conn:
+                conn.close()
             self._session.submit(self._replace, connection)
         else:
             with connection.lock:
@@ -713,6 +716,7 @@ class HostConnectionPool(object):
             self.open_count += 1
 
         log.debug("Going to open new connection to host %s", self.host)
+        conn = None
         try:
             conn = self._session.cluster.connection_factory(self.host.endpoint, on_orphaned_stream_released=self.on_orphaned_stream_released)
             if self._keyspace:
@@ -727,12 +731,16 @@ class HostConnectionPool(object):
             return True
         except (ConnectionException, socket.error) as exc:
             log.warning("Failed to add new connection to pool for host %s: %s", self.host, exc)
+            if conn:
+                conn.close()
             with self._lock:
                 self.open_count -= 1
             if self._session.cluster.signal_connection_failure(self.host, exc, is_host_addition=False):
                 self.shutdown()
             return False
         except AuthenticationFailed:
+            if conn:
+                conn.close()
             with self._lock:
                 self.open_count -= 1
             return False
